@@ -116,14 +116,18 @@ func checkC13(c *Ctx) {
 			}
 			for _, r := range sp.resets {
 				reset := false
+				// the reset routine together with the methods of the same type it delegates to
+				closure := methodClosure(r, sp.T)
 				for _, w := range c.fieldWrites(fld) {
-					if w.fn == r && w.kind == "store" {
+					if closure[w.fn] && w.kind == "store" {
 						reset = true
 					}
 				}
-				for _, ci := range methodCallsOnField(r, fld) {
-					if callee := ci.Common().StaticCallee(); callee != nil && (callee.Name() == "Reset" || callee.Name() == "Truncate") {
-						reset = true
+				for g := range closure {
+					for _, ci := range methodCallsOnField(g, fld) {
+						if callee := ci.Common().StaticCallee(); callee != nil && (callee.Name() == "Reset" || callee.Name() == "Truncate") {
+							reset = true
+						}
 					}
 				}
 				c.check(reset, "C13-RESET", fnName(r), tname+"."+fld.Name(), r.Pos(),
@@ -135,13 +139,42 @@ func checkC13(c *Ctx) {
 	}
 	// parser resets must reset the lexer too
 	for _, r := range []*ssa.Function{pReset, pResetAdd} {
-		c.check(len(callsOf(r, lexReset)) > 0, "C13-RESET", fnName(r), "calls Lexer.Reset", r.Pos(), "parser reset resets its lexer",
+		calls := false
+		for g := range methodClosure(r, parserT) {
+			if len(callsOf(g, lexReset)) > 0 {
+				calls = true
+			}
+		}
+		c.check(calls, "C13-RESET", fnName(r), "calls Lexer.Reset", r.Pos(), "parser reset resets its lexer",
 			"the parser reset routine does not reset the lexer")
 	}
 	// ResetAddNewInput must queue the stream after the reset, not before
 	if addNext := c.mustFn("C13-RESET", "Lexer.AddNextStream"); addNext != nil {
-		cr, ca := callsOf(pResetAdd, lexReset), callsOf(pResetAdd, addNext)
-		okOrder := len(cr) == 1 && len(ca) == 1 && dominatesInstr(cr[0].(ssa.Instruction), ca[0].(ssa.Instruction))
+		// the reset may be delegated to another Parser method (p.Reset()): any call that leads to Lexer.Reset counts
+		var cr []ssa.CallInstruction
+		eachInstr(pResetAdd, func(b *ssa.BasicBlock, i int, in ssa.Instruction) {
+			if ci, ok := in.(ssa.CallInstruction); ok {
+				if g := ci.Common().StaticCallee(); g != nil {
+					if g == lexReset {
+						cr = append(cr, ci)
+					} else if isMethodOf(g, parserT) {
+						for h := range methodClosure(g, parserT) {
+							if len(callsOf(h, lexReset)) > 0 {
+								cr = append(cr, ci)
+								break
+							}
+						}
+					}
+				}
+			}
+		})
+		ca := callsOf(pResetAdd, addNext)
+		okOrder := len(cr) >= 1 && len(ca) == 1
+		for _, r := range cr {
+			if !dominatesInstr(r.(ssa.Instruction), ca[0].(ssa.Instruction)) {
+				okOrder = false
+			}
+		}
 		c.check(okOrder, "C13-RESET", "Parser.ResetAddNewInput", "Reset before AddNextStream", pResetAdd.Pos(), "the new stream is queued after the reset", "the new input is not queued after the lexer reset (it would be discarded, or old residue kept)")
 	}
 
@@ -319,6 +352,7 @@ func checkC13(c *Ctx) {
 		c.check(n == 1 && okShape, "C13-CONS", "Lexer.GetNextToken", "tokens = tokens[1:]", getTok.Pos(), "taking a token removes exactly the first token", "GetNextToken does not remove exactly one token from the front of the queue")
 		c.ok("C13-CONS", "Lexer.PeekNextToken", "no removal", peek.Pos(), "peek leaves the queue unchanged")
 	}
+	c.checkParserStopOrder("C13-STOP")
 }
 
 func constInt64(k *types.Const) (int64, bool) {
@@ -574,4 +608,159 @@ func checkC13End(c *Ctx, lexerT *types.Named, pfx string) {
 				"the lexer can be inside an unfinished literal ("+n+") with nothing announcing it to the parser and nothing on the end-of-text path testing for it: the text so far is an unfinished prefix but no more-input request is made")
 		}
 	}
+}
+
+// checkParserStopOrder: a parked parser coroutine (iter.Pull's stop function
+// held in Parser.stop) runs on while it unwinds. Every routine that stops it
+// must do so before it installs the reply accumulator or the input of the
+// next parse, otherwise the abandoned parse writes into / reads from the new
+// one.
+func (c *Ctx) checkParserStopOrder(rule string) {
+	parserT := c.named("Parser")
+	stopFld := c.field("Parser", "stop")
+	sendMe := c.field("Parser", "sendMe")
+	if parserT == nil || stopFld == nil || sendMe == nil {
+		c.undecided(rule, "Parser", "stop / sendMe", token.NoPos, "anchor fields not found")
+		return
+	}
+	addNext := c.fn("Lexer.AddNextStream")
+	lexReset := c.fn("Lexer.Reset")
+	var methods []*ssa.Function
+	for _, f := range c.zygoFuncs() {
+		if f.Parent() == nil && isMethodOf(f, parserT) {
+			methods = append(methods, f)
+		}
+	}
+	// stoppers / installers: direct, then through calls to other Parser methods
+	directStop := func(in ssa.Instruction) bool {
+		ci, ok := in.(ssa.CallInstruction)
+		if !ok {
+			return false
+		}
+		if ci.Common().StaticCallee() == nil && !ci.Common().IsInvoke() {
+			if _, ok := loadOfField(ci.Common().Value, stopFld); ok {
+				return true
+			}
+		}
+		return false
+	}
+	directInstall := func(in ssa.Instruction) string {
+		switch x := in.(type) {
+		case *ssa.Store:
+			if fa, ok := x.Addr.(*ssa.FieldAddr); ok && faField(fa) == sendMe {
+				return "installs a new reply accumulator"
+			}
+		case ssa.CallInstruction:
+			if g := x.Common().StaticCallee(); g != nil {
+				if g == addNext {
+					return "queues the next input"
+				}
+				if g == lexReset {
+					return "resets the lexer"
+				}
+			}
+		}
+		return ""
+	}
+	stops := map[*ssa.Function]bool{}
+	installs := map[*ssa.Function]bool{}
+	for changed := true; changed; {
+		changed = false
+		for _, f := range methods {
+			eachInstr(f, func(b *ssa.BasicBlock, i int, in ssa.Instruction) {
+				callee := (*ssa.Function)(nil)
+				if ci, ok := in.(ssa.CallInstruction); ok {
+					callee = ci.Common().StaticCallee()
+				}
+				if !stops[f] && (directStop(in) || (callee != nil && stops[callee])) {
+					stops[f] = true
+					changed = true
+				}
+				if !installs[f] && (directInstall(in) != "" || (callee != nil && installs[callee])) {
+					installs[f] = true
+					changed = true
+				}
+			})
+		}
+	}
+	n := 0
+	for _, f := range methods {
+		if !stops[f] || !installs[f] {
+			continue
+		}
+		var stopEvents []ssa.Instruction
+		eachInstr(f, func(b *ssa.BasicBlock, i int, in ssa.Instruction) {
+			if directStop(in) {
+				stopEvents = append(stopEvents, in)
+			} else if ci, ok := in.(ssa.CallInstruction); ok {
+				if g := ci.Common().StaticCallee(); g != nil && stops[g] {
+					stopEvents = append(stopEvents, in)
+				}
+			}
+		})
+		eachInstr(f, func(b *ssa.BasicBlock, i int, in ssa.Instruction) {
+			what := directInstall(in)
+			if what == "" {
+				if ci, ok := in.(ssa.CallInstruction); ok {
+					if g := ci.Common().StaticCallee(); g != nil && installs[g] && !stops[g] {
+						what = "calls " + fnName(g) + ", which installs state of the next parse"
+					}
+				}
+			}
+			if what == "" {
+				return
+			}
+			n++
+			// a stop event must come first: it dominates the install, or sits in a
+			// block all of whose paths rejoin before the install (if p.stop != nil { p.stop() })
+			before := false
+			for _, s := range stopEvents {
+				if dominatesInstr(s, in) {
+					before = true
+					break
+				}
+				// guarded stop: the guard block dominates the install and the install is not reachable without passing the guard's join
+				if s.Block() != in.Block() && len(s.Block().Preds) == 1 {
+					guard := s.Block().Preds[0]
+					if cond, _, _ := condBranch(guard); cond != nil {
+						if bo, ok := cond.(*ssa.BinOp); ok && isNilConst(bo.Y) {
+							if _, isStopFld := loadOfField(bo.X, stopFld); isStopFld {
+								last := guard.Instrs[len(guard.Instrs)-1]
+								if dominatesInstr(last, in) {
+									if !blockReaches(in.Block(), s.Block()) {
+										before = true
+									}
+								}
+							}
+						}
+					}
+				}
+			}
+			c.check(before, rule, fnName(f), what, in.Pos(),
+				"the parked parser coroutine is stopped before this",
+				"this routine "+what+" before it stops the parked parser coroutine: the abandoned parse, which runs on while it unwinds, appends its half-built expression to the new accumulator or consumes the new input")
+		})
+	}
+	if n < 3 {
+		c.undecided(rule, "Parser", "stop-before-install sites", token.NoPos, fmt.Sprintf("only %d install sites found in routines that stop the coroutine", n))
+	}
+}
+
+// methodClosure: f and the methods of T that f reaches through static calls.
+func methodClosure(f *ssa.Function, T *types.Named) map[*ssa.Function]bool {
+	out := map[*ssa.Function]bool{f: true}
+	work := []*ssa.Function{f}
+	for len(work) > 0 {
+		x := work[len(work)-1]
+		work = work[:len(work)-1]
+		eachInstr(x, func(b *ssa.BasicBlock, i int, in ssa.Instruction) {
+			if ci, ok := in.(ssa.CallInstruction); ok {
+				if g := ci.Common().StaticCallee(); g != nil && !out[g] && g.Parent() == nil && isMethodOf(g, T) {
+					out[g] = true
+					work = append(work, g)
+				}
+			}
+		})
+	}
+	return out
 }
